@@ -17,17 +17,34 @@ import re
 import vlib
 
 LEVEL = "model_checking"
+ZONES = ("UTC", "America/New_York", "Europe/Berlin", "Australia/Sydney")
+LEADS = (1, 12, 35)
+
+
+def envs_for(behs, seed):
+    """The spec is zone-free; the real code must be too.  Every behaviour runs under one process time zone
+    (time.Local) and starts `lead` days before a DST transition of that zone, so that evaluation times fall into the
+    30 days after spring-forward / fall-back transitions (a quarter of the behaviours per zone)."""
+    res = []
+    for i in range(len(behs)):
+        j = i + seed
+        tz = ZONES[j % len(ZONES)]
+        if tz == "UTC":
+            res.append({"tz": tz, "lead": 0, "kind": ""})
+        else:
+            res.append({"tz": tz, "lead": LEADS[(j // len(ZONES)) % len(LEADS)], "kind": ("spring", "fall")[(j // (len(ZONES) * len(LEADS))) % 2]})
+    return res
 _VIOL = re.compile(r'^<<"(VIOL|NOTE|COV)", (\d+), "([^"]+)">>$', re.M)
 
 
-def _drive(ctx, behs, tag):
+def _drive(ctx, behs, envs, tag):
     binp = getattr(ctx, "_credit_bin", None)
     if binp is None:
         binp = ctx._credit_bin = vlib.go_test_build("credit")
     bpath = os.path.join(ctx.work, tag + "_behaviours.json")
     tpath = os.path.join(ctx.work, tag + "_trace.ndjson")
-    vlib.write_json(bpath, behs)
-    vlib.run_test_harness(binp, {"VERIF_IN": bpath, "VERIF_OUT": tpath, "VERIF_SEED": ctx.seed}, timeout=3000)
+    vlib.write_json(bpath, {"behs": behs, "env": envs})
+    vlib.run_test_harness(binp, {"VERIF_IN": bpath, "VERIF_OUT": tpath, "VERIF_SEED": ctx.seed, "TZ": "UTC"}, timeout=3000)
     rows = vlib.read_ndjson(tpath)
     if sum(1 for r in rows if r["ev"] == "reset") != len(behs):
         raise vlib.Infra("credit driver wrote %d behaviours, expected %d" % (
@@ -35,18 +52,22 @@ def _drive(ctx, behs, tag):
     return tpath, rows
 
 
-def _validate(ctx, behs, tag, max_rounds=3):
+def _validate(ctx, behs, tag, max_rounds=3, envs=None):
     """Replay + TLC validation. Returns (findings, stats): findings = list of dict(sig, beh, line, event)."""
     findings = []
     stats = {"events": 0, "ops": {}, "cov": {}, "notes": 0, "validated": 0}
+    if envs is None:
+        envs = envs_for(behs, ctx.seed)
     todo = list(behs)
+    tenv = list(envs)
+    stats["zones"] = {}
     rounds = 0
     while todo:
         rounds += 1
         if rounds > max_rounds:
             stats["unvalidated_after_rejections"] = len(todo)
             break
-        tpath, rows = _drive(ctx, todo, "%s_r%d" % (tag, rounds))
+        tpath, rows = _drive(ctx, todo, tenv, "%s_r%d" % (tag, rounds))
         res = vlib.tlc_trace(ctx, "Trace_Credit", "Trace_Credit.cfg", tpath, tag="%s_r%d" % (tag, rounds),
                              timeout=1800)
         upto = len(rows)
@@ -58,7 +79,7 @@ def _validate(ctx, behs, tag, max_rounds=3):
             bi, chunk, off = vlib.locate_trace(rows, line)
             ev = rows[line - 1]
             what = "panic" if ev.get("panic") else ("tx-rejected" if not ev.get("ok") else "model-mismatch")
-            findings.append({"sig": "conf@%s:%s" % (ev.get("ev"), what), "beh": todo[bi], "line": off, "event": ev})
+            findings.append({"sig": "conf@%s:%s" % (ev.get("ev"), what), "beh": todo[bi], "env": tenv[bi], "line": off, "event": ev})
             rejected = bi
             upto = line - off  # lines of the behaviours before the rejected one are fully validated
         for m in _VIOL.finditer(res["out"]):
@@ -67,12 +88,14 @@ def _validate(ctx, behs, tag, max_rounds=3):
                 continue
             if kind == "VIOL":
                 bi, chunk, off = vlib.locate_trace(rows, ln)
-                findings.append({"sig": sig, "beh": todo[bi], "line": off, "event": rows[ln - 1]})
+                findings.append({"sig": sig, "beh": todo[bi], "env": tenv[bi], "line": off, "event": rows[ln - 1]})
             elif kind == "NOTE":
                 stats["notes"] += 1
             else:
                 stats["cov"][sig] = stats["cov"].get(sig, 0) + 1
         for r in rows[:upto]:
+            if r["ev"] == "reset":
+                stats["zones"][r.get("tz", "UTC")] = stats["zones"].get(r.get("tz", "UTC"), 0) + 1
             stats["events"] += 1
             stats["ops"][r["ev"]] = stats["ops"].get(r["ev"], 0) + 1
         if rejected is None:
@@ -81,13 +104,14 @@ def _validate(ctx, behs, tag, max_rounds=3):
         else:
             stats["validated"] += rejected
             todo = todo[rejected + 1:]
+            tenv = tenv[rejected + 1:]
     return findings, stats
 
 
 def _what(f):
     ev = f["event"]
-    return ("%s at step %d of the behaviour: after %s(gap=%ss, arg=%s) the stored delegation is %s and "
-            "CalculateMonthlyCredit = %s" % (f["sig"], f["line"] - 1, ev.get("ev"), ev.get("gap"), ev.get("arg"),
+    return ("%s at step %d of the behaviour (process time zone %s, started %s days before a %s DST transition): after %s(gap=%ss, arg=%s) the stored delegation is %s and "
+            "CalculateMonthlyCredit = %s" % (f["sig"], f["line"] - 1, f["env"]["tz"], f["env"]["lead"], f["env"]["kind"] or "no", ev.get("ev"), ev.get("gap"), ev.get("arg"),
                                               vlib.json.dumps(ev.get("d"), sort_keys=True), ev.get("mc")))
 
 
@@ -99,11 +123,11 @@ def _confirm(ctx, findings):
         if cur is None or len(f["beh"]) < len(cur["beh"]):
             by_sig[f["sig"]] = f
     for i, (sig, f) in enumerate(sorted(by_sig.items())):
-        again, _ = _validate(ctx, [f["beh"]], "repro%d" % i)
+        again, _ = _validate(ctx, [f["beh"]], "repro%d" % i, envs=[f["env"]])
         same = [g for g in again if g["sig"] == sig]
         if not same:
             raise vlib.Infra("counter-example not reproduced: %s" % sig)
-        ctx.violation(sig, _what(same[0]), {"behaviours": [f["beh"]]})
+        ctx.violation(sig, _what(same[0]), {"behaviours": [f["beh"]], "env": [f["env"]]})
 
 
 def run(ctx):
@@ -147,11 +171,14 @@ def run(ctx):
         "the clause 'holding longer never lowers credit' is demanded only for steps in which no larger amount leaves "
         "the 30-day window (a sliding time-weighted average falls otherwise by definition); see docs/notes/C23.md",
         "block time advanced in one block per gap (begin/end blockers of all modules run)",
+        "process time zones UTC, America/New_York, Europe/Berlin, Australia/Sydney (a quarter of the behaviours each), "
+        "behaviours started 1 / 12 / 35 days before a spring-forward or fall-back transition of the zone",
     ]
     findings, st = _validate(ctx, behs, "main")
     ctx.cov["traces_validated_against_impl"] += st["validated"]
     ctx.cov["trace_events"] = st["events"]
     ctx.cov["ops"] = st["ops"]
+    ctx.cov["behaviours_per_process_time_zone"] = st["zones"]
     ctx.cov["clause_coverage"] = st["cov"]
     ctx.cov["literal_monotone_falls_seen"] = st["notes"]
     if any(f["sig"].startswith("conf@") for f in findings):
@@ -170,10 +197,10 @@ def run(ctx):
 def replay(ctx, path):
     with open(path) as f:
         obj = vlib.json.load(f)
-    findings, _ = _validate(ctx, obj["behaviours"], "replay")
+    findings, _ = _validate(ctx, obj["behaviours"], "replay", envs=obj.get("env"))
     done = set()
     for f in findings:
         if f["sig"] in done:
             continue
         done.add(f["sig"])
-        ctx.violation(f["sig"], _what(f), {"behaviours": [f["beh"]]})
+        ctx.violation(f["sig"], _what(f), {"behaviours": [f["beh"]], "env": [f["env"]]})
